@@ -39,10 +39,12 @@ ASSUMPTIONS = [
 MIN_COUNTERS = {
     'quick': {'rt_resumptions_checked': 2000, 'nrt_resumptions_checked': 3000,
               'rt_programs_finished': 40, 'nrt_programs': 200,
-              'rt_hand_driven_steps_from_thread_checked': 10},
+              'rt_hand_driven_steps_from_thread_checked': 10,
+              'restart_wakeups_compared': 4000},
     'thorough': {'rt_resumptions_checked': 100000, 'nrt_resumptions_checked': 200000,
                  'rt_programs_finished': 2000, 'nrt_programs': 20000,
-                 'rt_hand_driven_steps_from_thread_checked': 300},
+                 'rt_hand_driven_steps_from_thread_checked': 300,
+                 'restart_wakeups_compared': 100000},
 }
 FEATURES = ('tempo', 'cond', 'flow', 'call', 'embed', 'resched', 'beats', 'reenter',
             'replay', 'yinf', 'ahead')
@@ -60,7 +62,11 @@ def plan(tier, seed):
         for p, (f, n) in enumerate(split(1600, 4)):
             shards.append(dict(name=f'nrt{p}', mode='nrt', kind='nrt', first_case=f,
                                n=n, secs=40, hard_timeout=160))
+        shards.append(dict(name='restart0', mode='nrt', kind='restart', first_case=0, n=5000,
+                           secs=25, hard_timeout=160))
     else:
+        shards.append(dict(name='restart0', mode='nrt', kind='restart', first_case=0,
+                           n=400000, secs=300, hard_timeout=700))
         for i in range(10):
             shards.append(dict(
                 name=f'rt{i}', mode='rt', kind='rt', secs=240, batch=[20, 40, 80][i % 3],
@@ -509,6 +515,12 @@ def run_nrt(spec, acc):
 
 
 def run_shard(spec, acc):
+    if spec['shard']['kind'] == 'restart':
+        # routines that restart their function while scheduled (YieldAndReset)
+        # and are reset / paused / resumed from another routine: the histories of
+        # vf/c11_restart.py, judged here by the logical time of every wake-up
+        from vf.c11_restart import run_restart
+        return run_restart(spec, acc, 'C05', judged=('wake-up-',))
     if spec['shard']['kind'] == 'rt':
         run_rt(spec, acc)
     else:
